@@ -23,6 +23,7 @@ type c14Interp struct {
 	w       *c14.World
 	exp     c14.Expect
 	caseOps []string
+	flag    bool
 }
 
 func (in *c14Interp) loadAnswer(id int) string {
@@ -51,6 +52,17 @@ func (in *c14Interp) exec(line string) (string, string) {
 		record(line)
 		in.w = c14.NewWorld()
 		in.exp = c14.Expect{}
+		in.flag = false
+		ipldbindcode.DisableHashVerification = false
+		return line, "ok"
+	case "flag":
+		// the process-wide switch `index gsfa` sets (default flags: true) and never resets
+		record(line)
+		if len(w) != 3 || w[1] != "disableHashVerification" {
+			return line, "bad-op"
+		}
+		in.flag = w[2] == "true"
+		ipldbindcode.DisableHashVerification = in.flag
 		return line, "ok"
 	case "frame":
 		record(line)
@@ -88,7 +100,12 @@ func (in *c14Interp) exec(line string) (string, string) {
 		record(rec)
 		in.s.Count("answer:" + strings.Fields(ans)[0])
 		if v := in.exp.Judge(ans); v != "" {
-			in.s.Violation(v, "C14:"+in.exp.Mode+":"+in.exp.Fault, in.s.Replay(in.caseOps))
+			key := "C14:" + in.exp.Mode + ":" + in.exp.Fault
+			if in.flag {
+				key = c14.FlagKey
+				v = "with ipldbindcode.DisableHashVerification set (the state `index gsfa` leaves behind): " + v
+			}
+			in.s.Violation(v, key, in.s.Replay(in.caseOps))
 		}
 		if ans == "panic" {
 			in.s.Violation("LoadDataFromDataFrames panics: "+zz.LastPanic, "C14:panic:"+in.exp.Fault, in.s.Replay(in.caseOps))
@@ -231,6 +248,42 @@ func c14Generate(g *c14.Gen, s *zz.Session, thorough bool) {
 		one(size, []int{60, 7, 13, 33, 2}[bi%5], []int{10, 3, 1, 7, 5}[bi%5], hashKinds[bi%2], true, orders[bi%3], []string{"even", "random"}[bi%2], 5)
 	}
 	one(200*1024, 1, 1, "crc", true, "asc", "even", 3)
+	// configuration phase: the process-wide switch that `index gsfa` (default flags) sets and leaves set;
+	// LoadDataFromDataFrames must keep verifying whatever its value
+	flagCase := func(size, k, F int, hk string, order, chunking string) {
+		caseNo++
+		b := g.R.Bytes(size)
+		g.Emit("case run=tooling #%d flag-phase size=%d k=%d F=%d hash=%s order=%s chunks=%s", caseNo, size, k, F, hk, order, chunking)
+		g.Emit("flag disableHashVerification true")
+		p := g.Layout(b, k, F, hk, true, order, chunking)
+		q := g.Layout(g.R.Bytes(size), k, F, hk, true, order, chunking)
+		g.Emit("expect exact unfaulted %s", c14.Digest(b))
+		load("load", p.First())
+		for _, sc := range g.ContentFaults(p, q) {
+			s.Count("flag-phase:fault:" + sc.Name)
+			for _, l := range sc.Setup {
+				g.Emit("%s", l)
+			}
+			g.Emit("expect %s %s %s", sc.Mode, sc.Name, c14.Digest(b))
+			load("load", sc.First)
+			for _, l := range sc.Restore {
+				g.Emit("%s", l)
+			}
+		}
+		g.Emit("flag disableHashVerification false")
+	}
+	for fi, k := range []int{1, 2, 5, 10, 33, 60} {
+		for _, hk := range []string{"crc", "fnv"} {
+			flagCase(40*k+fi, k, 1+(fi*3)%10, hk, orders[fi%3], []string{"even", "random"}[fi%2])
+		}
+	}
+	flagCase(51200, 10, 5, "crc", "asc", "even")
+	flagCase(51200, 10, 5, "fnv", "shuffle", "even")
+	if thorough {
+		for r := 0; r < 150; r++ {
+			flagCase(1+g.R.Intn(5000), 1+g.R.Intn(60), 1+g.R.Intn(10), hashKinds[g.R.Intn(2)], orders[g.R.Intn(3)], []string{"even", "random"}[g.R.Intn(2)])
+		}
+	}
 	// random part
 	n := 25
 	if thorough {
@@ -255,6 +308,8 @@ func TestVerifC14(t *testing.T) {
 	s := zz.NewSession()
 	defer s.Close()
 	in := &c14Interp{s: s, w: c14.NewWorld()}
+	savedFlag := ipldbindcode.DisableHashVerification
+	defer func() { ipldbindcode.DisableHashVerification = savedFlag }()
 	var ops []string
 	if rp := zz.ReplayFile(); rp != "" {
 		data, err := os.ReadFile(rp)
